@@ -70,9 +70,13 @@ pub(super) enum Carrier {
     /// DW_AT_sibling (a reference-class attribute that is navigation data, dropped by the
     /// converter): must NOT make the next sibling a dependency
     SiblingAttr,
+    /// DW_FORM_ref4 whose value is past the end of the source's unit and lands exactly on an
+    /// entry of the NEXT unit (an invalid reference: it designates no entry of its own unit)
+    OutOfBoundsIntoNextUnit,
 }
-const MORE_CARRIERS: [Carrier; 14] = [
+const MORE_CARRIERS: [Carrier; 15] = [
     Carrier::SiblingAttr,
+    Carrier::OutOfBoundsIntoNextUnit,
     Carrier::AttrRefAddrOtherUnitRoot,
     Carrier::ExprCallRefOtherUnitRoot,
     Carrier::ExprImplicitPointer,
@@ -254,6 +258,15 @@ pub(super) fn build_case(c: &mut Case) -> Option<Model> {
                 }
                 loclist(&mut units, su, sd, vec![Op::Call4(tgt(dd, su))]);
                 c.edges.push((src, dst));
+            }
+            Carrier::OutOfBoundsIntoNextUnit => {
+                if c.nunits != 2 || src == 0 || dst == 0 || c.unit_of[src] != 0 || c.unit_of[dst] != 1 {
+                    return None;
+                }
+                // unit 0 starts at section offset 0, so the section offset of the target is the
+                // (out-of-bounds) unit-relative value
+                push(&mut units, su, sd, at(at_ref, AV::Ref(FORM_REF4, tgt(dd, su))));
+                c.invalid_src.push(src);
             }
             Carrier::SiblingAttr => {
                 // only a real sibling pointer: dst is the next entry with the same parent
@@ -459,6 +472,41 @@ fn check_case(ctx: &mut Ctx, c: &mut Case, stepwise: bool) {
         filtered: &|required: &[String]| run::convert_filtered(&b.secs, big, required, stepwise),
     };
     check_with(ctx, c, &be);
+    // the same through two further call patterns of the API
+    if !stepwise && c.n <= 2 {
+        // every required entry is passed to require_entry BEFORE the unit's entries are read
+        // (documented as valid: "either before or after")
+        run::EARLY_REQUIRE.with(|e| e.set(true));
+        let be = Backend {
+            entry: "convert_with_filter+ConvertUnit::convert(require_entry-before-read_entry)",
+            api: "ConvertUnit::convert, require_entry before read_entry",
+            tag: "c19",
+            rendered: render_case(c, &b),
+            input: dump_by_name(&b.secs, big),
+            unfiltered: &|| run::convert(&b.secs, big, run::Api::From),
+            filtered: &|required: &[String]| run::convert_filtered(&b.secs, big, required, false),
+        };
+        check_with(ctx, c, &be);
+        run::EARLY_REQUIRE.with(|e| e.set(false));
+        ctx.outcome("c19:route:require-before-read");
+    }
+    if stepwise && !c.invalid_src.is_empty() {
+        // a caller that skips attributes it cannot convert (crates/examples/src/bin/convert.rs):
+        // the invalid reference is dropped, so the retained set itself can be judged
+        run::LENIENT.with(|l| l.set(true));
+        let be = Backend {
+            entry: "convert_with_filter+stepwise(skipping-unconvertible-attributes)",
+            api: "stepwise, unconvertible attributes skipped",
+            tag: "c19",
+            rendered: render_case(c, &b),
+            input: dump_by_name(&b.secs, big),
+            unfiltered: &|| run::convert(&b.secs, big, run::Api::StepSeq),
+            filtered: &|required: &[String]| run::convert_filtered(&b.secs, big, required, true),
+        };
+        check_with(ctx, c, &be);
+        run::LENIENT.with(|l| l.set(false));
+        ctx.outcome("c19:route:skip-unconvertible-attributes");
+    }
 }
 
 pub(super) fn check_with(ctx: &mut Ctx, c: &Case, be: &Backend) {
@@ -835,6 +883,9 @@ pub fn def(tier: Tier) -> CheckDef {
             "c19:carrier:LocListTombstone".into(),
             "c19:carrier:AttrRefAddrOtherUnitRoot".into(),
             "c19:carrier:SiblingAttr".into(),
+            "c19:carrier:OutOfBoundsIntoNextUnit".into(),
+            "c19:route:require-before-read".into(),
+            "c19:route:skip-unconvertible-attributes".into(),
         ]
         .into_iter()
         .chain(super::split::required_c19())
